@@ -651,10 +651,11 @@ def progress_oracle(obs, x):
 
 # ------------------------------------------------------------------------ C07
 def expected_cancel_error(spec, how):
-    """(exception type, message) a cancelled transfer must report for an entry point."""
+    """(exception type, message) a cancelled transfer must report for an entry point.  The message is None where the caller
+    gave none (future.cancel(), Ctrl-C): the text the library chooses there is not part of the property."""
     msg = spec.get('cancel_msg', 'bye')
     if how == 'future.cancel' or how == 'kbi_result':
-        return CancelledError, ''
+        return CancelledError, None
     if how == 'shutdown_cancel':
         return CancelledError, msg
     if how == 'with_exc':
@@ -662,7 +663,7 @@ def expected_cancel_error(spec, how):
 
         return FatalError, (msg if msg else repr(with_exc_class(spec)(msg)))
     if how in ('with_kbi', 'kbi_shutdown', 'kbi_exit'):
-        return CancelledError, 'KeyboardInterrupt()'
+        return CancelledError, None
     raise ValueError(how)
 
 
@@ -684,7 +685,7 @@ def cancel_oracle(obs, x, how, not_started=False, targeted=True):
         if isinstance(exc, CancelledError):
             if not targeted:
                 out.append(V(f'{x.label}: reports {exc!r} although it was not the cancelled transfer', **mech, sym='collateral-cancel'))
-            elif type(exc) is not etype or str(exc) != emsg:
+            elif type(exc) is not etype or (emsg is not None and str(exc) != emsg):
                 out.append(V(f'{x.label}: cancelled through {how} but result() raised {type(exc).__name__}({str(exc)!r}); '
                              f'expected {etype.__name__}({emsg!r})', **mech, sym='wrong-cancel-error'))
         elif not unwrap_matches(exc, mine):
